@@ -7,6 +7,7 @@ import BppModel.Text.Keyval
 import BppModel.Text.Vars
 import BppModel.Text.TokenizerU
 import BppModel.Text.TokRT
+import BppModel.Text.TableRT
 /-
 Driver for C17 (round trips and exact grammars).  Stateless: every op carries its inputs.
 Strings are hex-escaped; the implementation's doubles arrive as 16 hex digits, the model's
@@ -336,6 +337,60 @@ def nstRtVerdict (s op en d : Str) (solid : Bool) (k : Nat) (impl : Option (List
       | _, _, _, _, _ => "FAIL:parse"
     | _ => "-"                                                    -- raised: nothing to judge here
 
+/-! ### tables -/
+
+open Bpp.Text.U in
+def showTbl (t : Tbl) : String :=
+  toString t.nCol ++ " " ++ toString t.rows.length ++ " " ++ showStrs t.colNames ++ " " ++ showStrs t.rowNames
+    ++ String.join (t.rows.map (fun r => String.join (r.map (fun x => " " ++ hex x))))
+
+/-- `k` items, then the rest -/
+def takeStrs (k : Nat) (l : List String) : Option (List Str × List String) :=
+  if l.length < k then none
+  else match unhexList (l.take k) with
+    | some x => some (x, l.drop k)
+    | none => none
+
+/-- the rows of the op line: `nRows` times (`name`?) `nCol` cells -/
+def parseRows (hasRow : Bool) (nCol : Nat) : Nat → List String → Option (List (Option Str × List Str))
+  | 0, [] => some []
+  | 0, _ :: _ => none
+  | k + 1, l =>
+    match (if hasRow then takeStrs 1 l else some ([], l)) with
+    | none => none
+    | some (nm, l1) =>
+      match takeStrs nCol l1 with
+      | none => none
+      | some (cells, l2) =>
+        match parseRows hasRow nCol k l2 with
+        | none => none
+        | some rest => some ((if hasRow then nm.head? else none, cells) :: rest)
+
+open Bpp.Text.U Bpp.Text.RT in
+/-- `tbl.rt <sep> <align> <nCol> <hasCol> <hasRow> <nRows> items…`: build, write, read back -/
+def tblRt (sep : Str) (align : Bool) (nCol : Nat) (colNames : List Str) (rows : List (Option Str × List Str))
+    (impl : Option (List String)) : String × String :=
+  match buildTbl nCol colNames rows with
+  | .error e => ("build:" ++ showErr e, "-")
+  | .ok t =>
+    match writeTable t sep align with
+    | .error e => ("write:" ++ showErr e, "-")
+    | .ok text =>
+      let back := readBack t text sep
+      let out := hex text ++ " / " ++ (match back with | .ok t' => showTbl t' | .error e => showErr e)
+      -- table_roundtrip on the implementation's answer: under the side conditions the table read
+      -- back is the table written
+      let verdict := match impl, sep with
+        | none, _ => "-"
+        | some ans, [c] =>
+          if RtWFcore t c then
+            (match splitTok "/" ans with
+             | [_, back'] => if " ".intercalate back' == showTbl t then "ok" else "FAIL:table_roundtrip"
+             | _ => "FAIL:table_roundtrip")
+          else "-"
+        | some _, _ => "-"
+      (out, verdict)
+
 def stepRT (s : Unit) (op : List String) (impl : Option (List String)) : Unit × String × String :=
   match op with
   | ["st.rt", hs, hd, so, al, k] =>
@@ -348,12 +403,25 @@ def stepRT (s : Unit) (op : List String) (impl : Option (List String)) : Unit ×
     | some str, some o, some e, some d, some k =>
       (s, nstRtModel str o e d (so == "1") k, nstRtVerdict str o e d (so == "1") k impl)
     | _, _, _, _, _ => (s, "bad-op", "-")
+  | "tbl.rt" :: hsep :: al :: nc :: hc :: hr :: nr :: items =>
+    match unhex hsep, nat? nc, nat? nr with
+    | some sep, some nCol, some nRows =>
+      match (if hc == "1" then takeStrs nCol items else some ([], items)) with
+      | none => (s, "bad-op", "-")
+      | some (colNames, rest) =>
+        match parseRows (hr == "1") nCol nRows rest with
+        | none => (s, "bad-op", "-")
+        | some rows =>
+          let (out, v) := tblRt sep (al == "1") nCol colNames rows impl
+          (s, out, v)
+    | _, _, _ => (s, "bad-op", "-")
   | _ => (s, "bad-op", "-")
 
 def step' (s : Unit) (op : List String) (impl : Option (List String)) : Unit × String × String :=
   match op with
   | "st.rt" :: _ => stepRT s op impl
   | "nst.rt" :: _ => stepRT s op impl
+  | "tbl.rt" :: _ => stepRT s op impl
   | _ => step s op impl
 
 def machine : Machine Unit := { init := fun _ => (), step := step' }
